@@ -4,7 +4,7 @@ import itertools, random
 from luagen import Prog
 
 WHERES = ["block", "while", "repeat", "repeatcond", "fornum", "forin", "function"]
-EXITS = ["fall", "break", "goto_out", "goto_cont", "return", "tailcall", "pcall_error", "xpcall_error",
+EXITS = ["fall", "break", "goto_out", "goto_cont", "return", "tailcall", "pcall_error", "xpcall_error", "xpcall_badhandler",
          "pcall_rterror", "co_yield", "co_death", "co_error", "nested_pcall"]
 CAPTURES = ["get", "incget", "nested", "modafter"]
 LOOPS = {"while", "repeat", "repeatcond", "fornum", "forin"}
@@ -65,7 +65,7 @@ def clos_case(where, exit_, cap, nest="body"):
             return [p.ret([p.num(1)])]
         if exit_ == "tailcall":
             return [p.ret([p.call(p.id("churn"), [p.num(i) for i in range(1, 9)])])]
-        if exit_ in ("pcall_error", "xpcall_error", "co_error"):
+        if exit_ in ("pcall_error", "xpcall_error", "xpcall_badhandler", "co_error"):
             return [p.callstat(p.call(p.id("error"), [p.str("x")]))]
         if exit_ == "pcall_rterror":
             return [p.local(["zz"], [p.bin("+", p.nil(), p.num(1))])]
@@ -132,6 +132,9 @@ def clos_case(where, exit_, cap, nest="body"):
     elif exit_ == "xpcall_error":
         h = p.func(["m"], p.block([p.ret([p.bin("..", p.str("h:"), p.id("m"))])]))
         pre.append(p.emit([p.call(p.id("xpcall"), [p.id("scope"), h])]))
+    elif exit_ == "xpcall_badhandler":       # the message handler fails too
+        h = p.func(["m"], p.block([p.emit([p.str("handler-runs")]), p.callstat(p.call(p.id("error"), [p.str("handler-fails")]))]))
+        pre.append(p.emit([p.paren(p.call(p.id("xpcall"), [p.id("scope"), h]))]))
     elif exit_ in ("co_yield", "co_death", "co_error"):
         pre += [p.local(["co"], [p.call(p.field(p.id("coroutine"), "create"), [p.id("scope")])]),
                 p.emit([p.call(p.field(p.id("coroutine"), "resume"), [p.id("co")])]),
@@ -244,4 +247,32 @@ def selfref_cases():
             ss.append(p.do(p.block(inner)))
             ss.append(p.emit([p.call(p.id("type"), [p.id("f")])]))
             out.append((p, p.block(ss)))
+    return out
+
+
+def goto_loop_cases():
+    """loops built from goto: a local declared AFTER the label is captured on every pass; the
+    backward goto sits directly in the label's block, or in nested blocks that capture nothing"""
+    out = []
+    for depth in (1, 2, 3):                 # nesting of the goto below the label's block
+        for labelblock in ("function", "do", "while-body"):
+            for cap in ("get", "incget", "modafter"):
+                for extra_local in (False, True):
+                    p = Prog()
+                    pre = [p.local(["keep", "ki", "i"], [p.table([]), p.num(0), p.num(0)])]
+                    jump = p.if_([p.bin("<=", p.id("i"), p.num(3))], [p.block([p.goto("top")])])
+                    for _ in range(depth - 1):
+                        jump = p.do(p.block([p.local(["pad"], [p.num(1)]), jump])) if extra_local else p.do(p.block([jump]))
+                    loop = [p.label("top"),
+                            p.local(["v"], [p.bin("*", p.id("i"), p.num(10))]),
+                            p.assign([p.id("i")], [p.bin("+", p.id("i"), p.num(1))])] + capture_stmts(p, cap, "v") + [jump, p.emit([p.str("after"), p.id("i"), p.id("v")])]
+                    if labelblock == "function":
+                        pre += [p.localfunction("run", p.func([], p.block(loop))), p.callstat(p.call(p.id("run"), []))]
+                    elif labelblock == "do":
+                        pre.append(p.do(p.block(loop)))
+                    else:
+                        pre += [p.local(["once"], [p.true()]), p.while_(p.id("once"), p.block([p.assign([p.id("once")], [p.false()])] + loop))]
+                    use = lambda: p.fornum("j", p.num(1), p.id("ki"), 0, p.block([p.emit([p.id("j"), p.call(p.index(p.id("keep"), p.id("j")), [])])]))
+                    pre += [use(), use()]
+                    out.append((p, p.block(pre)))
     return out
